@@ -45,6 +45,14 @@ class Translation(DiscreteAffine, Similarity):
         return message
 
     @property
+    def composes_inplace_with(self):
+        r"""
+        :class:`Translation` can swallow composition with any other
+        :class:`Translation`.
+        """
+        return Translation
+
+    @property
     def n_parameters(self):
         r"""
         The number of parameters: ``n_dims``
